@@ -1,6 +1,6 @@
 #!/bin/bash
 # intake5.sh <PROPERTY> [worktree]: intake of a round-5 delivery (<worktree>/_out/<n>/patch.diff, demo_test.go, note.txt)
-p=$1; wt=${2:-/tmp/seed7-$p}
+p=$1; wt=${2:-/tmp/seed8-$p}
 for n in 1 2 3; do
   [ -f $wt/_out/$n/patch.diff ] || continue
   m=1; while [ -d /verif/seeded/$p-$m ]; do m=$((m+1)); done
